@@ -351,7 +351,7 @@ func (u *skUT) apply(op kop) string {
 		u.adds += len(op.Burst)
 	case "bad":
 		err := u.s.AddWithCount(op.V, op.W)
-		if err == nil && !(u.cfg.exact && op.W == 0) {
+		if err == nil {
 			return fmt.Sprintf("AddWithCount(%v,%v) was accepted", op.V, op.W)
 		}
 		u.cl.label("rejected-add")
